@@ -416,6 +416,18 @@ def compare(rec, scenario):
         if rec.outcome[0] != "raise" or rec.outcome[1][0] != "RuntimeError":
             bad("run-outcome", "until-event never triggers but env.run ended with %r"
                 % (rec.outcome,))
+    stopped = getattr(rec, "env_now_after", None)
+    if stopped is not None and not out and verdict != "never-triggered":
+        if verdict == "ok" and scenario.get("until") is None:
+            # "until nothing is left to do": an abandoned wait (e.g. the native activity of an
+            # interrupted process) may or may not count as something left to do
+            last = max([ev[2] for ev in rec.trace] or [end])
+            if isinstance(stopped, tuple) or not last <= stopped <= end:
+                bad("stop-time", "after env.run() ended env.now reads %r, but the last thing a "
+                    "process did was at %r and the reference stops at %r" % (stopped, last, end))
+        elif stopped != end:
+            bad("stop-time", "after env.run(until=%r) ended (%s) env.now reads %r, reference: "
+                "the run stops at %r" % (scenario.get("until"), verdict, stopped, end))
     if out:
         return out, model
     strict = verdict != "ok" or isinstance(scenario.get("until"), (int, float))
